@@ -7,11 +7,13 @@ pub const CAP: usize = 12;
 #[derive(Clone, Copy)]
 pub struct Bytes {
     buf: [u8; CAP],
+    /// the content is buf[start..start+len] (so that `advance` is O(1))
+    start: usize,
     len: usize,
 }
 impl Bytes {
     pub const fn new() -> Self {
-        Bytes { buf: [0; CAP], len: 0 }
+        Bytes { buf: [0; CAP], start: 0, len: 0 }
     }
     pub fn from_static(s: &'static [u8]) -> Self {
         Self::copy_from_slice(s)
@@ -34,8 +36,8 @@ impl Bytes {
     pub fn extend(&mut self, s: &[u8]) {
         let mut i = 0;
         while i < s.len() {
-            assert!(self.len < CAP, "verification shim: Bytes capacity exceeded");
-            self.buf[self.len] = s[i];
+            assert!(self.start + self.len < CAP, "verification shim: Bytes capacity exceeded");
+            self.buf[self.start + self.len] = s[i];
             self.len += 1;
             i += 1;
         }
@@ -59,13 +61,13 @@ impl Default for Bytes {
 }
 impl AsRef<[u8]> for Bytes {
     fn as_ref(&self) -> &[u8] {
-        &self.buf[..self.len]
+        &self.buf[self.start..self.start + self.len]
     }
 }
 impl std::ops::Deref for Bytes {
     type Target = [u8];
     fn deref(&self) -> &[u8] {
-        &self.buf[..self.len]
+        &self.buf[self.start..self.start + self.len]
     }
 }
 impl std::fmt::Debug for Bytes {
@@ -80,7 +82,7 @@ impl PartialEq for Bytes {
         }
         let mut i = 0;
         while i < self.len {
-            if self.buf[i] != o.buf[i] {
+            if self.buf[self.start + i] != o.buf[o.start + i] {
                 return false;
             }
             i += 1;
@@ -118,8 +120,14 @@ impl From<Bytes> for Vec<u8> {
 pub trait Buf {
     fn remaining(&self) -> usize;
     fn chunk(&self) -> &[u8];
+    fn advance(&mut self, cnt: usize);
     fn has_remaining(&self) -> bool {
         self.remaining() > 0
+    }
+    fn copy_to_bytes(&mut self, len: usize) -> Bytes {
+        let b = Bytes::copy_from_slice(&self.chunk()[..len]);
+        self.advance(len);
+        b
     }
 }
 impl Buf for Bytes {
@@ -129,5 +137,138 @@ impl Buf for Bytes {
     fn chunk(&self) -> &[u8] {
         self.as_ref()
     }
+    fn advance(&mut self, cnt: usize) {
+        assert!(cnt <= self.len, "cannot advance past the end of the buffer");
+        self.start += cnt;
+        self.len -= cnt;
+    }
 }
-pub type BytesMut = Bytes;
+impl<T: Buf + ?Sized> Buf for &mut T {
+    fn remaining(&self) -> usize {
+        (**self).remaining()
+    }
+    fn chunk(&self) -> &[u8] {
+        (**self).chunk()
+    }
+    fn advance(&mut self, cnt: usize) {
+        (**self).advance(cnt)
+    }
+}
+impl Buf for &[u8] {
+    fn remaining(&self) -> usize {
+        self.len()
+    }
+    fn chunk(&self) -> &[u8] {
+        self
+    }
+    fn advance(&mut self, cnt: usize) {
+        *self = &self[cnt..];
+    }
+}
+
+/// Growable buffer: same heap-free representation, `freeze()` turns it into `Bytes`. Capacity hints
+/// (`with_capacity`, `reserve`) have no observable effect, as in the real crate.
+#[derive(Clone, Copy, Default, PartialEq, Eq)]
+pub struct BytesMut {
+    inner: Bytes,
+}
+impl BytesMut {
+    pub fn new() -> Self {
+        BytesMut { inner: Bytes::new() }
+    }
+    pub fn with_capacity(_c: usize) -> Self {
+        Self::new()
+    }
+    pub fn len(&self) -> usize {
+        self.inner.len
+    }
+    pub fn is_empty(&self) -> bool {
+        self.inner.len == 0
+    }
+    pub fn capacity(&self) -> usize {
+        CAP
+    }
+    pub fn reserve(&mut self, _n: usize) {}
+    pub fn extend_from_slice(&mut self, s: &[u8]) {
+        self.inner.extend(s)
+    }
+    pub fn freeze(self) -> Bytes {
+        self.inner
+    }
+    pub fn truncate(&mut self, n: usize) {
+        self.inner.truncate(n)
+    }
+    pub fn clear(&mut self) {
+        self.inner.len = 0;
+    }
+    pub fn split(&mut self) -> BytesMut {
+        let out = *self;
+        self.inner.len = 0;
+        out
+    }
+}
+impl AsRef<[u8]> for BytesMut {
+    fn as_ref(&self) -> &[u8] {
+        self.inner.as_ref()
+    }
+}
+impl std::ops::Deref for BytesMut {
+    type Target = [u8];
+    fn deref(&self) -> &[u8] {
+        self.inner.as_ref()
+    }
+}
+impl std::fmt::Debug for BytesMut {
+    fn fmt(&self, f: &mut std::fmt::Formatter<'_>) -> std::fmt::Result {
+        f.write_str("BytesMut")
+    }
+}
+impl From<BytesMut> for Bytes {
+    fn from(b: BytesMut) -> Bytes {
+        b.inner
+    }
+}
+impl Extend<u8> for BytesMut {
+    fn extend<I: IntoIterator<Item = u8>>(&mut self, it: I) {
+        for b in it {
+            self.inner.extend(&[b]);
+        }
+    }
+}
+pub trait BufMut {
+    fn put_slice(&mut self, s: &[u8]);
+    fn remaining_mut(&self) -> usize;
+    /// takes everything that remains in `src`
+    fn put<T: Buf>(&mut self, mut src: T)
+    where
+        Self: Sized,
+    {
+        while src.has_remaining() {
+            let n = {
+                let c = src.chunk();
+                self.put_slice(c);
+                c.len()
+            };
+            src.advance(n);
+        }
+    }
+    fn put_u8(&mut self, b: u8) {
+        self.put_slice(&[b])
+    }
+}
+impl BufMut for BytesMut {
+    fn put_slice(&mut self, s: &[u8]) {
+        self.inner.extend(s)
+    }
+    fn remaining_mut(&self) -> usize {
+        usize::MAX - self.inner.len
+    }
+}
+impl BufMut for Vec<u8> {
+    fn put_slice(&mut self, s: &[u8]) {
+        self.extend_from_slice(s)
+    }
+    fn remaining_mut(&self) -> usize {
+        usize::MAX - self.len()
+    }
+}
